@@ -223,7 +223,7 @@ impl Agg {
 /// its own 30 s step watchdog; the longest legitimate runs are the start-up
 /// probes of C20 with their 30 s answer deadlines).
 pub fn hang_secs() -> u64 {
-    std::env::var("VERIF_HANG_SECS").ok().and_then(|s| s.parse().ok()).unwrap_or(120)
+    std::env::var("VERIF_HANG_SECS").ok().and_then(|s| s.parse().ok()).unwrap_or(300)
 }
 
 /// `generate` may itself execute the code under test (dry runs): bounded.
